@@ -83,7 +83,13 @@ func (evt *endEvent) NextAction(ctx context.Context, flow Flow) chan IAction {
 	})
 
 	response := make(chan IAction, 1)
-	evt.mch <- nextActionMessage{response: response}
+	// the node's goroutine ends with the context: nobody may be left to take the
+	// token, which then leaves on its own cancellation (a nil channel never fires)
+	select {
+	case evt.mch <- nextActionMessage{response: response}:
+	case <-ctx.Done():
+		return nil
+	}
 	return response
 }
 
